@@ -210,6 +210,28 @@ theorem keep_commits_snapshot (c : Ctx) :
     c.commit.reportedAt = c.nextReportedAt := by
   simp [Ctx.commit]
 
+/-- `set_keep_unsent` (an empty report that was not sent): the watermarks advance, but the last-success
+instant, the retry state and therefore the liveness point, the minimum-interval gate and the expiry
+stay where they were — a stream of changes to attributes the subscriber did not select cannot
+postpone its liveness report (finding `C13-unsent-empty-report-restarts-liveness-clock`) -/
+theorem unsent_keeps_clock (hz : Nat) (c : Ctx) :
+    c.setKeepUnsent.commit.seenAttr = c.nextAttr ∧ c.setKeepUnsent.commit.seenEv = c.nextEv ∧
+    c.setKeepUnsent.commit.reportedAt = c.sub.reportedAt ∧
+    c.setKeepUnsent.commit.retryAt = c.sub.retryAt ∧ c.setKeepUnsent.commit.fail = c.sub.fail ∧
+    c.setKeepUnsent.commit.reportDueAt hz = c.sub.reportDueAt hz ∧
+    c.setKeepUnsent.commit.reportAllowedAt hz = c.sub.reportAllowedAt hz ∧
+    (∀ now, c.setKeepUnsent.commit.isExpired hz now = c.sub.isExpired hz now) := by
+  refine ⟨rfl, rfl, rfl, rfl, rfl, rfl, rfl, fun _ => rfl⟩
+
+/-- … whereas committing it like a delivered report (`set_keep`, the code before the repair) moves the
+liveness point to half a maximum interval after *this* empty report -/
+theorem keep_on_empty_postponed_liveness :
+    ∃ c : Ctx, c.sub.reportDueAt 1000000 = 30000000 ∧ c.commit.reportDueAt 1000000 = 59000000 :=
+  ⟨{ sub := { id := 1, fab := 1, peer := 1, minInt := 1, maxInt := 60, reportedAt := 0, retryAt := 0,
+              fail := 0, seenAttr := 0, seenEv := 0 },
+     nextAttr := 1, nextEv := 0, nextReportedAt := 29000000, nextRetryAt := 0, nextFail := 0 },
+   by decide, by decide⟩
+
 /-! ## (4) timing -/
 
 /-- no report before the minimum interval after the last delivered one -/
